@@ -138,6 +138,10 @@ def read_back(E, img, loc, content, obs, violations, source, check_repair):
     if check_repair:
         obs["repairs_checked"] += 1
         try:
+            if obs["repairs_checked"] % 3 == 0 and loc != "adjacent":
+                # the user cleans up the debris first: the product's whole cache directory is removed, then the repair
+                shutil.rmtree(os.path.dirname(E.user[img]), ignore_errors=True)
+                obs["repairs_after_wiping_the_cache_directory"] = obs.get("repairs_after_wiping_the_cache_directory", 0) + 1
             harness.open_tree(E.root, create_cache=True)
             audit.arm((E.root,))
             try:
